@@ -89,6 +89,7 @@ func (c *clientEnd) Send(m *signaling.SessionRequest) error {
 			return context.Canceled
 		}
 	}
+	c.p.w.noteReq(c.p, m)
 	select {
 	case c.p.c2s <- m:
 		return nil
@@ -97,6 +98,31 @@ func (c *clientEnd) Send(m *signaling.SessionRequest) error {
 	case <-c.p.ctx.Done():
 		return context.Canceled
 	}
+}
+
+// reqRec is one AckMsg / ClearMsg request a client put on the wire; `at` is the length of the
+// relay's event log at that moment (whatever the relay does because of it is logged later).
+type reqRec struct {
+	src  int
+	kind string
+	k    uint64
+	at   int
+}
+
+func (w *world) noteReq(p *pipe, m *signaling.SessionRequest) {
+	var kind string
+	var k uint64
+	switch b := m.GetBody().(type) {
+	case *signaling.SessionRequest_AckMsg:
+		kind, k = "ack", b.AckMsg
+	case *signaling.SessionRequest_ClearMsg:
+		kind, k = "clear", b.ClearMsg
+	default:
+		return
+	}
+	w.mtx.Lock()
+	w.reqs = append(w.reqs, reqRec{src: p.src, kind: kind, k: k, at: len(w.log)})
+	w.mtx.Unlock()
 }
 
 // wgate holds the next request of one kind that peer src writes to the relay.
@@ -242,7 +268,7 @@ type serverEnd struct{ p *pipe }
 func (s *serverEnd) Context() context.Context { return s.p.sctx }
 func (s *serverEnd) Send(m *signaling.SessionResponse) error {
 	s.p.w.logTx(s.p.id, m)
-	if _, ok := m.GetBody().(*signaling.SessionResponse_RecvMsg); ok && s.p.w.takeSever(s.p.src) {
+	if s.p.w.severKind(s.p.src) == respKind(m) && s.p.w.takeSever(s.p.src) {
 		// the stream dies silently with this message in flight: the client sees an error, the
 		// relay keeps believing the stream is alive (its writes are buffered by the transport)
 		s.p.severOnce.Do(func() { close(s.p.severed) })
@@ -303,6 +329,14 @@ func (r *relayClient) Listen(ctx context.Context, in *signaling.ListenRequest) (
 	return nil, io.EOF
 }
 func (r *relayClient) Session(ctx context.Context) (signaling.SRPCSignaling_SessionClient, error) {
+	r.w.mtx.Lock()
+	if r.w.failOpen[r.src] > 0 {
+		r.w.failOpen[r.src]--
+		r.w.openFailed++
+		r.w.mtx.Unlock()
+		return nil, io.ErrUnexpectedEOF
+	}
+	r.w.mtx.Unlock()
 	pctx, cancel := context.WithCancel(ctx)
 	sctx, scancel := context.WithCancel(context.WithValue(r.w.ctx, ctxKey{}, r.w.e.pids[r.src]))
 	p := &pipe{w: r.w, src: r.src, ctx: pctx, cancel: cancel, sctx: sctx, scancel: scancel, severed: make(chan struct{}), c2s: make(chan *signaling.SessionRequest, 16), s2c: make(chan *signaling.SessionResponse, 16)}
@@ -370,21 +404,44 @@ type appEvent struct {
 }
 
 type world struct {
-	ctx     context.Context // ends with the scenario
-	usurped int
-	sever   map[int]int // peer -> number of relayed messages until its stream dies silently (0 = not armed)
-	e       *engine
-	srv     *signaling_rpc_server.Server
-	mtx     sync.Mutex
-	log     []string // relay hook lines + TX lines
-	clog    []string // client hook lines of both clients, in the order of their critical sections
-	tkrOf   map[string]int
-	calls   map[string]int
-	pipes   []*pipe
-	ends    []*serverEnd
-	app     []appEvent
-	active  int // goroutines started on behalf of Session RPCs that have not ended yet
-	gates   []*wgate
+	ctx        context.Context // ends with the scenario
+	usurped    int
+	sever      map[int]int // peer -> number of relayed messages until its stream dies silently (0 = not armed)
+	e          *engine
+	srv        *signaling_rpc_server.Server
+	mtx        sync.Mutex
+	log        []string // relay hook lines + TX lines
+	clog       []string // client hook lines of both clients, in the order of their critical sections
+	tkrOf      map[string]int
+	calls      map[string]int
+	pipes      []*pipe
+	ends       []*serverEnd
+	app        []appEvent
+	active     int // goroutines started on behalf of Session RPCs that have not ended yet
+	gates      []*wgate
+	reqs       []reqRec
+	severOn    map[int]string // which relayed response kills the stream: "recv" (default) or "ack"
+	failOpen   map[int]int    // peer -> number of Session RPC opens that still fail
+	openFailed int
+}
+
+func respKind(m *signaling.SessionResponse) string {
+	switch m.GetBody().(type) {
+	case *signaling.SessionResponse_RecvMsg:
+		return "recv"
+	case *signaling.SessionResponse_AckMsg:
+		return "ack"
+	}
+	return "other"
+}
+
+func (w *world) severKind(src int) string {
+	w.mtx.Lock()
+	defer w.mtx.Unlock()
+	if k := w.severOn[src]; k != "" {
+		return k
+	}
+	return "recv"
 }
 
 // takeSever reports whether the stream of peer src dies with the relayed message being written now.
@@ -480,7 +537,11 @@ func (s *side) cur() *signaling_rpc_client.ClientPeerRef {
 func (e *engine) scenario(kind string, nMsgs int) {
 	wctx, wcancel := context.WithCancel(context.Background())
 	defer wcancel()
-	w := &world{e: e, calls: map[string]int{}, ctx: wctx, sever: map[int]int{}, tkrOf: map[string]int{}}
+	w := &world{e: e, calls: map[string]int{}, ctx: wctx, sever: map[int]int{}, tkrOf: map[string]int{}, severOn: map[int]string{}, failOpen: map[int]int{}}
+	if kind == "stable" && e.rng.Intn(2) == 0 {
+		// C23 "client stream failure and retry", failure to OPEN: the first Session RPCs of the peers cannot be opened
+		w.failOpen[1], w.failOpen[2] = e.rng.Intn(3), 1+e.rng.Intn(3)
+	}
 	nA, nB := nMsgs, 1+e.rng.Intn(nMsgs)
 	if kind == "usurp" {
 		// the stream of one peer dies silently while the k-th message relayed to it is in flight
@@ -492,6 +553,12 @@ func (e *engine) scenario(kind string, nMsgs int) {
 			w.sever[2] = 1 + e.rng.Intn((nA+1)/2)
 		} else {
 			w.sever[1] = 1 + e.rng.Intn((nB+1)/2)
+		}
+		if e.usurps%2 == 0 {
+			// the stream dies with an ACKNOWLEDGEMENT in flight to the sender instead
+			for p := range w.sever {
+				w.severOn[p] = "ack"
+			}
 		}
 	}
 	w.srv = signaling_rpc_server.NewServerWithIdentify(e.le, func(ctx context.Context) (peer.ID, error) {
@@ -527,6 +594,7 @@ func (e *engine) scenario(kind string, nMsgs int) {
 	recvCtx, recvCancel := context.WithCancel(ctx)
 	defer recvCancel()
 	var settling atomic.Bool
+	var paused, parked [3]atomic.Bool // the application of peer i does not call Recv for the moment / has noticed
 	var recvCalls, recvCanceled atomic.Int64
 	var apps sync.WaitGroup
 	for _, s := range sides[1:] {
@@ -537,6 +605,12 @@ func (e *engine) scenario(kind string, nMsgs int) {
 		go func() {
 			defer apps.Done()
 			for recvCtx.Err() == nil {
+				if paused[s.ix].Load() {
+					parked[s.ix].Store(true)
+					time.Sleep(100 * time.Microsecond)
+					continue
+				}
+				parked[s.ix].Store(false)
 				r := s.cur()
 				mode := 9
 				if !settling.Load() {
@@ -758,6 +832,62 @@ func (e *engine) scenario(kind string, nMsgs int) {
 			sendNow(sides[2], p3, 8*time.Second, true)
 			actions = append(actions, "then A and B send one message each")
 		}
+	} else if kind == "stale-ack" {
+		// C21 sentinel: B's acknowledgement of m1 is held on the wire while A's caller gives up on m1
+		// (A withdraws it) and A sends m2, which the relay forwards to B's client; B's APPLICATION
+		// does not receive for the moment. The late ack(1) is released: it crosses the withdrawal at
+		// the relay and must change nothing: Send(m2) stays pending until B's application has m2.
+		total = 0
+		pay := func(tag byte) []byte { return append([]byte{8, tag}, e.rng.Bytes(5)...) }
+		p0, p1, p2 := pay(0), pay(1), pay(2)
+		total++
+		if err := sendNow(sides[1], p0, 8*time.Second, true); err == nil {
+			g := w.armGate(2, "ack")
+			sctx, sc := context.WithTimeout(ctx, 8*time.Second)
+			defer sc()
+			r1 := make(chan error, 1)
+			total++
+			go func() { r1 <- sendCtx(sides[1], p1, sctx, false) }()
+			if !g.waitHeld(gateWait) {
+				w.disarm(g)
+				harnessErr = "the ack write of peer 2 was never started"
+				sc()
+				<-r1
+			} else {
+				paused[2].Store(true)
+				for t0 := time.Now(); !parked[2].Load() && time.Since(t0) < 5*time.Second; {
+					time.Sleep(100 * time.Microsecond)
+				}
+				from := w.cmark()
+				sc() // A's caller gives up on m1: A's client withdraws it
+				<-r1
+				total++
+				r2 := make(chan error, 1)
+				go func() { r2 <- sendNow(sides[1], p2, 8*time.Second, true) }()
+				// B's client has accepted m2 (hook event), its application has not taken it
+				gotM2 := w.waitCHook(from, 2, gateWait, func(l string) bool { return strings.HasPrefix(l, "ev=recvmsg ") })
+				if !gotM2 {
+					harnessErr = "peer 2's client never got the second message"
+				}
+				settling.Store(true)
+				w.quiesce(time.Millisecond)
+				g.open() // the late acknowledgement of m1 reaches the relay now
+				w.quiesce(time.Millisecond)
+				settling.Store(false)
+				select {
+				case err := <-r2:
+					r2 <- err
+					if err == nil && gotM2 {
+						// (the ack-before-delivery monitor below states the same on the hook order)
+						actions = append(actions, "Send(m2) RETURNED SUCCESS while B's application was not receiving")
+					}
+				default:
+				}
+				paused[2].Store(false)
+				<-r2
+				actions = append(actions, "A->B warm-up; B's ack of m1 held on the wire; A's caller gives up on m1 (withdrawn); A sends m2 (B's client has it, B's application is not receiving); the late ack of m1 is released; B's application receives again")
+			}
+		}
 	} else if kind != "reattach" {
 		startSender(sides[1], nA, true)
 		startSender(sides[2], nB, true)
@@ -905,6 +1035,56 @@ func (e *engine) scenario(kind string, nMsgs int) {
 			}
 		}
 	}
+	// C21 (relay side, on the composed traffic): an AckMsg(k) / ClearMsg(k) is transmitted to a peer
+	// only if its partner's client had put an AckMsg / ClearMsg request naming exactly k on the wire
+	// before, and every request justifies at most one transmission
+	{
+		w.mtx.Lock()
+		rlines := append([]string(nil), w.log...)
+		reqs := append([]reqRec(nil), w.reqs...)
+		srcOf := map[int]int{}
+		for _, p := range w.pipes {
+			srcOf[p.id] = p.src
+		}
+		w.mtx.Unlock()
+		used := make([]bool, len(reqs))
+		for i, line := range rlines {
+			var rk string
+			switch {
+			case strings.HasPrefix(line, "TX tx,") && strings.Contains(line, ",r=ack,"):
+				rk = "ack"
+			case strings.HasPrefix(line, "TX tx,") && strings.Contains(line, ",r=clear,"):
+				rk = "clear"
+			default:
+				continue
+			}
+			var c int
+			var k uint64
+			for _, f := range strings.Split(line[3:], ",") {
+				if strings.HasPrefix(f, "c=") {
+					c, _ = strconv.Atoi(f[2:])
+				} else if strings.HasPrefix(f, "v=") {
+					k, _ = strconv.ParseUint(f[2:], 10, 64)
+				}
+			}
+			to := srcOf[c]
+			found := false
+			var named []string
+			for j, r := range reqs {
+				if r.kind != rk || r.at > i || r.src != 3-to {
+					continue
+				}
+				named = append(named, strconv.FormatUint(r.k, 10))
+				if !used[j] && r.k == k && !found {
+					used[j], found = true, true
+				}
+			}
+			if !found && mon == "" {
+				mon = fmt.Sprintf("the relay sent peer %d an %s of message %d, but its partner's client had put no (not yet consumed) %s request naming message %d on the wire before; the partner's %s requests until then named [%s]", to, map[string]string{"ack": "acknowledgement", "clear": "withdrawal"}[rk], k, rk, k, rk, strings.Join(named, " "))
+				key = "sige2e.ackclear:" + kind
+			}
+		}
+	}
 	stuckMtx.Lock()
 	if stuck != "" && mon == "" {
 		mon = stuck
@@ -979,6 +1159,7 @@ func (e *engine) scenario(kind string, nMsgs int) {
 	}
 	w.mtx.Lock()
 	e.rep.Extra["usurped_streams"] = e.rep.Extra["usurped_streams"].(int) + w.usurped
+	e.rep.Extra["session_opens_failed"] = e.rep.Extra["session_opens_failed"].(int) + w.openFailed
 	if kind == "usurp" && w.usurped > 0 {
 		e.rep.Case("sige2e[usurp] relay replaced a silently dead stream", "ok", "ok", "e2e.usurp.replaced", true)
 	}
@@ -1031,9 +1212,11 @@ func (e *engine) run() {
 	e.rep.Rule = "two real signaling clients and the real relay composed through in-memory SRPC stream pairs: both peers send 1–10 messages sequentially (each waits for its ack; every fourth caller gives up after 1-3 ms and the next Send must complete) while both applications receive with Recv callers of every kind (30 ms, already cancelled, past the deadline, a few microseconds, cancelled concurrently; recv-cancelled: one application polls ONLY with contexts that are already done); stable, with B dropping/re-acquiring its session mid-flight, with the stream of either peer dying silently while a relayed message is in flight (it reconnects while the relay still holds the old stream: the usurp path), and with a request (send / ack / clear) of one peer HELD ON THE WIRE inside the pipe while the partner re-attaches or its stream fails and re-connects, released after the holder processed the re-open (reopen-during-write); monitors: a Send sees its ack only after a Recv of the partner took that message (order of the clients' critical sections) AND that Recv call returned it to the application, every message taken by a Recv critical section is returned by the call, all served sends complete; the relay's trace replayed on the Lean LTS; distinct = scenario"
 	e.rep.Require("e2e.stable", "e2e.reattach", "e2e.usurp", "e2e.usurp.replaced", "e2e.send-cancelled", "e2e.recv-cancelled",
 		"e2e.reopen-during-write.send", "e2e.reopen-during-write.ack", "e2e.reopen-during-write.clear")
-	for _, k := range []string{"messages", "redelivered_after_reattach", "relay_events", "usurped_streams", "sends_ok", "sends_cancelled", "client_events", "recv_calls", "recv_calls_returned_error"} {
+	for _, k := range []string{"messages", "redelivered_after_reattach", "relay_events", "usurped_streams", "sends_ok", "sends_cancelled", "client_events", "recv_calls", "recv_calls_returned_error", "session_opens_failed"} {
 		e.rep.Extra[k] = 0
 	}
+	e.rep.Require("e2e.stale-ack")
+	e.scenario("stale-ack", 1)
 	variants := []string{"send|reattach", "ack|stream-failure", "clear|reattach", "send|stream-failure", "clear|stream-failure"}
 	for _, v := range variants[:3] {
 		e.variant = v
